@@ -114,7 +114,7 @@ def spec_strategy(draw, tier):
         ep = strategies.endpoints(idx=i)
         if k == "tls":
             c = draw(strategies.tls_conn(max_records=5, max_len=400, ep=ep, bytes_mode_limit=0,
-                                         delivery=strategies.tcp_delivery(modes=("rec", "rec", "cuts", "cuts", "flight"), wrap=False, dups=True, moves=True)))
+                                         delivery=strategies.tcp_delivery(modes=("rec", "rec", "cuts", "cuts", "flight"), wrap=True, dups=True, moves=True)))
             c["cert_len"] = min(c.get("cert_len", 300), 300)
             c["tcp"]["mss"] = max(c["tcp"]["mss"], 536)
             c["tcp"]["acks"] = False
